@@ -352,6 +352,11 @@ def check_convert_value(val: str, char: Characteristic) -> Any:
         except (ValueError, TypeError, InvalidOperation):
             raise FormatError(f'"{val}" is no valid "{char.format}"!')
 
+        if not val.is_finite():
+            # NaN and Infinity parse as Decimal but cannot be clamped, stepped
+            # or converted to an integer (InvalidOperation, OverflowError, ...)
+            raise FormatError(f'"{val}" is no valid "{char.format}"!')
+
         if char.minValue is not None:
             val = max(Decimal(char.minValue), val)
 
